@@ -40,6 +40,33 @@ func VerifC08HostIPv6Shapes() {
 	compareParse(scheme+"://["+c.pre+w+c.suf+"]/", "", false)
 }
 
+// ipv4TailCtxs: where a dotted-decimal part of an IPv4-in-IPv6 tail starts (first, middle and last part;
+// after '::', after six pieces).
+var ipv4TailCtxs = []ctx{
+	{"::", ".2.3.4"}, {"::1.", ".3.4"}, {"::1.2.", ".4"}, {"::1.2.3.", ""}, {"1:2:3:4:5:6:1.2.3.", ""}, {"1:2:3:4:5:6:", ".2.3.4"}, {"::ffff:1.", ".3.4"},
+}
+
+// ipv4TailPrefixes: concrete leading digits that put the part next to a boundary: 255/256, 2^16, 2^31,
+// 2^32, 2^63, 2^64 (and 2^64+255), 2*2^64, 10^19; K symbolic digits follow, so the solver ranges over
+// every value within 10^K of the boundary - in particular over every part that a 64-bit (or 32-bit)
+// accumulator would wrap into 0..255.
+var ipv4TailPrefixes = []string{"", "2", "25", "655", "21474836", "42949672", "429496729", "92233720368547758", "184467440737095516", "184467440737095518",
+	"368934881474191032", "100000000000000000", "1000000000000000000"}
+
+// VerifC08IPv4TailDigits: every part of an embedded IPv4 tail is at most 255 whatever its length.
+func VerifC08IPv4TailDigits() {
+	schemes := []string{"http", "a"}
+	scheme := schemes[vnd.Pick(len(schemes))]
+	c := ipv4TailCtxs[vnd.Pick(len(ipv4TailCtxs))]
+	pre := ipv4TailPrefixes[vnd.Pick(len(ipv4TailPrefixes))]
+	w := vnd.StrOver(vnd.Len(vnd.Param("C08.KTail", 2, 3)), decDigits)
+	in := scheme + "://[" + c.pre + pre + w + c.suf + "]/"
+	_, err := Parse(in)
+	vnd.Cover("ipv4-tail-accepted", err == nil)
+	vnd.Cover("ipv4-tail-rejected", err != nil)
+	compareParse(in, "", false)
+}
+
 // VerifC08HostBrackets: every arrangement of brackets around/inside the host.
 func VerifC08HostBrackets() {
 	schemes := []string{"http", "a", "file"}
@@ -133,6 +160,7 @@ func VerifC08IPv6RoundTrip() {
 }
 
 func init() {
+	verifHarnesses["VerifC08IPv4TailDigits"] = VerifC08IPv4TailDigits
 	verifHarnesses["VerifC08HostIPv6Text"] = VerifC08HostIPv6Text
 	verifHarnesses["VerifC08HostIPv6Shapes"] = VerifC08HostIPv6Shapes
 	verifHarnesses["VerifC08HostBrackets"] = VerifC08HostBrackets
